@@ -11,7 +11,8 @@ CONSTANTS Conns,       \* connection ids (two for OthersUnaffected)
           MaxCredit, MaxTick, MaxAbort,
           NP,          \* pieces per frame (1 = the transport takes whole frames)
           Limit,       \* max_concurrent_connections
-          MaxFail      \* failed connection setups explored
+          MaxFail,     \* failed connection setups explored
+          MaxAErr      \* failing accept() calls explored
 
 VARIABLES conns, dg, bud
 vars == <<conns, dg, bud>>
@@ -21,7 +22,9 @@ Init == /\ \E q \in QCaps : conns = [c \in Conns |-> [InitConn(Dev, q) EXCEPT !.
         /\ bud = [sent |-> [c \in Conns |-> 0], credit |-> 0, tick |-> 0,
                   abort |-> 0, down |-> FALSE, dsent |-> 0,
                   nconn |-> 0,      \* ServerMetrics::num_connections
-                  fail |-> 0, refused |-> {}]
+                  fail |-> 0, refused |-> {},
+                  listening |-> TRUE,   \* the accept loop of StreamServer::run is alive
+                  aerr |-> 0]
 
 Local(c, f) == conns' = [conns EXCEPT ![c] = f] /\ UNCHANGED dg
 S(c) == conns[c]
@@ -31,11 +34,14 @@ Sent(c) == bud' = [bud EXCEPT !.sent[c] = @ + 1]
 
 \* ---- environment ----
 \* stream.rs run_until_error / spawn_connection_handler, Connection::run, Drop
-AcceptOk(c) == /\ S(c).st = "none" /\ ~bud.down /\ bud.nconn < Limit
+\* poll_accept itself fails (ECONNABORTED, EMFILE ...): logged, the loop goes on
+AcceptError == /\ bud.listening /\ bud.aerr < MaxAErr
+               /\ bud' = [bud EXCEPT !.aerr = @ + 1] /\ UNCHANGED <<conns, dg>>
+AcceptOk(c) == /\ S(c).st = "none" /\ bud.listening /\ bud.nconn < Limit
                /\ Local(c, EnvOpen(S(c))) /\ bud' = [bud EXCEPT !.nconn = @ + 1]
-AcceptFail(c) == /\ S(c).st = "none" /\ ~bud.down /\ bud.nconn < Limit /\ bud.fail < MaxFail
+AcceptFail(c) == /\ S(c).st = "none" /\ bud.listening /\ bud.nconn < Limit /\ bud.fail < MaxFail
                  /\ Local(c, EnvNoConn(S(c))) /\ bud' = [bud EXCEPT !.fail = @ + 1]
-AcceptRefuse(c) == /\ S(c).st = "none" /\ ~bud.down /\ bud.nconn >= Limit
+AcceptRefuse(c) == /\ S(c).st = "none" /\ bud.listening /\ bud.nconn >= Limit
                    /\ Local(c, EnvNoConn(S(c))) /\ bud' = [bud EXCEPT !.refused = @ \cup {c}]
 ConnClose(c) == /\ S(c).st = "closed" /\ S(c).live
                 /\ Local(c, [S(c) EXCEPT !.live = FALSE]) /\ bud' = [bud EXCEPT !.nconn = @ - 1]
@@ -61,7 +67,7 @@ HalfTick == /\ bud.tick < MaxTick /\ \E c \in Conns : IsOpen(c)
             /\ bud' = [bud EXCEPT !.tick = @ + 1] /\ UNCHANGED dg
 CloseCmd == /\ ~bud.down /\ \E c \in Conns : IsOpen(c)
             /\ conns' = [c \in Conns |-> EnvShutdown(S(c))]
-            /\ bud' = [bud EXCEPT !.down = TRUE] /\ UNCHANGED dg
+            /\ bud' = [bud EXCEPT !.down = TRUE, !.listening = FALSE] /\ UNCHANGED dg
 
 \* ---- the connection loop (connection.rs run_until_error) ----
 Flush(c) == /\ LoopBranch(S(c)) = "cmd"
@@ -111,7 +117,7 @@ DSend == \E r \in DOMAIN dg.tasks :
            DgCanYield(dg, r) /\ dg' = DgYield(dg, r) /\ UNCHANGED bud /\ DSame
 
 NextConn ==
-  \/ HalfTick \/ CloseCmd
+  \/ HalfTick \/ CloseCmd \/ AcceptError
   \/ \E c \in Conns :
        \/ AcceptOk(c) \/ AcceptFail(c) \/ AcceptRefuse(c) \/ ConnClose(c) \/ RecvFrame(c) \/ RecvPartial(c) \/ RecvRest(c) \/ RecvShort(c)
        \/ RecvReply(c) \/ PeerAbort(c) \/ Release(c) \/ Credit(c)
@@ -132,6 +138,10 @@ Framed              == \A c \in Conns : /\ QueueBounded(S(c)) /\ WireFramed(S(c)
 \* connections that exist (handler started, not yet dropped): failed
 \* setups and refusals leave no trace, so a connection is refused only
 \* while Limit connections really exist
+\* only the shutdown command ends the accept loop: after any number of
+\* failed accepts / failed setups / refusals / hostile connections a later
+\* good connection is still taken on (AcceptOk stays enabled below the limit)
+AcceptLoopAlive == bud.listening = ~bud.down
 NumConnsExact == bud.nconn = Cardinality({c \in Conns : S(c).live})
 RefusedOnlyAtLimit ==
   [][\A c \in Conns : (c \in bud'.refused /\ c \notin bud.refused)
